@@ -33,6 +33,10 @@ def fam_rand(size):
     return f
 
 
+def fam_anomaly(tier, seed, n):
+    return randscenes.anomaly_scenes(seed, n), None
+
+
 def fam_model(prmset, **kw):
     def f(tier, seed, n):
         cfg = mcconf.chunk_cfg([], prmset=prmset, **kw).replace('SPECIFICATION Spec\n', EXPORT_SPEC)
@@ -90,8 +94,8 @@ PLANS = {
         'mc': {'quick': [('okta', dict(invariants=['Inv_C03'], prmset='PrmOkta', ceilos=('a',), nt=3, slice_oracle='bands'))],
                'thorough': [('okta', dict(invariants=['Inv_C03'], prmset='PrmOkta', ceilos=('a', 'b'), nt=2, slice_oracle='bands')),
                             ('okta3', dict(invariants=['Inv_C03'], prmset='PrmOkta', ceilos=('a',), nt=4))]},
-        'families': {'quick': [('F7nm', fam_nm, 900), ('F1', fam_model('PrmOkta'), 250), ('Rtiny', fam_rand('tiny'), 250), ('Rmid', fam_rand('mid'), 40)],
-                     'thorough': [('F7nm', fam_nm, None), ('F1', fam_model('PrmOkta'), 6000), ('Rtiny', fam_rand('tiny'), 3000), ('Rmid', fam_rand('mid'), 400)]},
+        'families': {'quick': [('F7nm', fam_nm, 900), ('F1', fam_model('PrmOkta'), 250), ('Ranomaly', fam_anomaly, 250), ('Rtiny', fam_rand('tiny'), 250), ('Rmid', fam_rand('mid'), 40)],
+                     'thorough': [('F7nm', fam_nm, None), ('F1', fam_model('PrmOkta'), 6000), ('Ranomaly', fam_anomaly, 3000), ('Rtiny', fam_rand('tiny'), 3000), ('Rmid', fam_rand('mid'), 400)]},
         'marks': ['N_multihit', 'N_okta0buf', 'N_okta8buf', 'N_oktatie', 'N_rows'],
         'seed_shift': 11,
     },
@@ -115,8 +119,8 @@ PLANS = {
                             ('ids2', dict(invariants=['Inv_C05'], prmset='PrmSplit', ceilos=('a',), nt=2, slice_oracle='any', group_oracle='hits')),
                             ('ids3', dict(invariants=['Inv_C05'], prmset='PrmSplit', ceilos=('a', 'b'), nt=2, slice_oracle='bands', group_oracle='slices')),
                             ('layerids', 'MC_LayerIds')]},
-        'families': {'quick': [('F4stress', fam_stress, 2), ('F3b', fam_split, 120), ('F1', fam_model('PrmSplit'), 200), ('Rtiny', fam_rand('tiny'), 250), ('Rmid', fam_rand('mid'), 80)],
-                     'thorough': [('F4stress', fam_stress, 8), ('F3b', fam_split, 2000), ('F1', fam_model('PrmSplit'), 5000), ('Rtiny', fam_rand('tiny'), 3000), ('Rmid', fam_rand('mid'), 800), ('Rbig', fam_rand('big'), 80)]},
+        'families': {'quick': [('F4stress', fam_stress, 2), ('F3b', fam_split, 120), ('F1', fam_model('PrmSplit'), 200), ('Ranomaly', fam_anomaly, 150), ('Rtiny', fam_rand('tiny'), 250), ('Rmid', fam_rand('mid'), 80)],
+                     'thorough': [('F4stress', fam_stress, 8), ('F3b', fam_split, 2000), ('F1', fam_model('PrmSplit'), 5000), ('Ranomaly', fam_anomaly, 2000), ('Rtiny', fam_rand('tiny'), 3000), ('Rmid', fam_rand('mid'), 800), ('Rbig', fam_rand('big'), 80)]},
         'marks': ['N_split', 'N_split3', 'N_gmm1', 'N_merge', 'N_crop', 'N_cropdrop', 'N_multihit'],
         'seed_shift': 17,
     },
